@@ -2,7 +2,9 @@
   Dirk.Gen.Kernels — GENERATED — do not edit.  Regenerated on every run by /verif/factx (kernels.go) from the
   Go source of the decision kernels (rules/standard, services/checker/static, services/process/standard,
   util/scatter.go, services/api/grpc/handlers/receiver, services/peers/static, slashingprotection.go,
-  services/signer/standard: the batch signing loop, with core/result.go and rules/service.go for the enumerator values);
+  services/signer/standard: the batch signing loop and the pre-check, with core/result.go and rules/service.go for the
+  enumerator values; services/ruler/golang/runner.go: RunRules and the head of runRules, with services/ruler/service.go
+  for the action constants);
   Dirk/Props/KernelsEq.lean proves each definition
   equal to the hand-written model function.  A kernel outside the translatable fragment appears as
   `kernelUntranslatable_<name>` instead, and KernelsEq.lean does not build.
@@ -489,6 +491,208 @@ def signLoopBoundMultiGuards : List String := [
   "rulesResults := s.ruler.RunRules(ctx, credentials, ruler.ActionSign, rulesData)",
   "util.Scatter(len(rulesResults), func(offset int, entries int, _ *sync.RWMutex) (any, error) { for i := offset; i < offset+entries; i++ { switch rulesResults[i] … } })",
   "return results, signatures"
+]
+
+/-- `fetchAccount` (services/signer/standard/helpers.go), the `core.Result` value returned and WHICH fetch was made on the way (0 none, 1 `FetchAccount(name)`, 2 `FetchAccountByKey(pubKey)`).
+    nameEmpty: `name == ""`; keyNil: `pubKey == nil`; fetchByNameErr / fetchByKeyErr: that call returned an error; model counterpart: `Dirk.fetchAccount`. -/
+def fetchAccountGen (nameEmpty keyNil fetchByNameErr fetchByKeyErr : Bool) : Nat × Nat :=
+  if nameEmpty && keyNil then (2, 0)
+  else if keyNil then
+    if fetchByNameErr then (2, 1)
+    else (1, 1)
+  else if fetchByKeyErr then (2, 2)
+  else (1, 2)
+
+/-- the guards of `fetchAccount`, as written in the source, in order -/
+def fetchAccountGuards : List String := [
+  "if name == \"\" && pubKey == nil { return nil, nil, core.ResultDenied }",
+  "var wallet e2wtypes.Wallet",
+  "var account e2wtypes.Account",
+  "var err error",
+  "if pubKey == nil { wallet, account, err = s.fetcher.FetchAccount(ctx, name) } else { wallet, account, err = s.fetcher.FetchAccountByKey(ctx, pubKey) }",
+  "if err != nil { return nil, nil, core.ResultDenied }",
+  "return wallet, account, core.ResultSucceeded"
+]
+
+/-- `checkAccess` (services/signer/standard/helpers.go), the `core.Result` value returned.  checkerSaysYes: the result of `s.checker.Check(ctx, credentials, accountName, action)` (the function's own parameters, in this order); model counterpart: `Dirk.preCheck (the permission check)`. -/
+def checkAccessGen (checkerSaysYes : Bool) : Nat :=
+  if checkerSaysYes then 1
+  else 2
+
+/-- the guards of `checkAccess`, as written in the source, in order -/
+def checkAccessGuards : List String := [
+  "if s.checker.Check(ctx, credentials, accountName, action) { return core.ResultSucceeded }",
+  "return core.ResultDenied"
+]
+
+/-- `unlockAccount` (services/signer/standard/helpers.go), the `core.Result` value returned.  walletNil / accountNil: the parameter is nil; isLocker: `account.(e2wtypes.AccountLocker)` holds;
+    isUnlockedErr, isUnlocked: what `locker.IsUnlocked(ctx)` returned (error?, value); unlockErr, unlockOk: what
+    `s.unlocker.UnlockAccount(ctx, wallet, account)` returned (error?, value); model counterpart: `Dirk.preCheck (its tail: `lockStateFail`, `acct.unlockable`)`. -/
+def unlockAccountGen (walletNil accountNil isLocker isUnlockedErr isUnlocked unlockErr unlockOk : Bool) : Nat :=
+  if walletNil then 2
+  else if accountNil then 2
+  else if !isLocker then 1
+  else if isUnlockedErr then 3
+  else if isUnlocked then 1
+  else if unlockErr then 3
+  else if !unlockOk then 2
+  else 1
+
+/-- the guards of `unlockAccount`, as written in the source, in order -/
+def unlockAccountGuards : List String := [
+  "if wallet == nil { return core.ResultDenied }",
+  "if account == nil { return core.ResultDenied }",
+  "locker, isLocker := account.(e2wtypes.AccountLocker)",
+  "if !isLocker { return core.ResultSucceeded }",
+  "unlocked, err := locker.IsUnlocked(ctx)",
+  "if err != nil { return core.ResultFailed }",
+  "if unlocked { return core.ResultSucceeded }",
+  "unlocked, err = s.unlocker.UnlockAccount(ctx, wallet, account)",
+  "if err != nil { return core.ResultFailed }",
+  "if !unlocked { return core.ResultDenied }",
+  "return core.ResultSucceeded"
+]
+
+/-- `preCheck` (services/signer/standard/helpers.go), the composition: the `core.Result` value returned, given what the three callees returned (as `core.Result` values).
+    fetchRes / checkRes / unlockRes: the result of `s.fetchAccount(ctx, name, pubKey)` / `s.checkAccess(ctx, credentials, <preCheckCheckedNameGen>, action)` /
+    `s.unlockAccount(ctx, wallet, account)` with wallet, account the values the fetchAccount call returned; model counterpart: `Dirk.preCheck`. -/
+def preCheckGen (fetchRes checkRes unlockRes : Nat) : Nat :=
+  if (fetchRes != 1) then fetchRes
+  else if (checkRes != 1) then checkRes
+  else if (unlockRes != 1) then unlockRes
+  else 1
+
+/-- … the expression handed to `checkAccess` as the account name, every local printed as its role (wallet, account = what the fetchAccount call returned) -/
+def preCheckCheckedNameGen : String := "fmt.Sprintf(\"%s/%s\", wallet.Name(), account.Name())"
+
+/-- … the same expression as a function of `wallet.Name()`, `account.Name()` and preCheck's string parameters -/
+def preCheckCheckedNameFnGen (walletName accountName name action : String) : String :=
+  walletName ++ "/" ++ accountName
+
+/-- … the callees, in call order (each is a top-level statement of the body, made at most once) -/
+def preCheckOrderGen : List String := ["fetchAccount", "checkAccess", "unlockAccount"]
+
+/-- the guards of `preCheck`, as written in the source, in order -/
+def preCheckGuards : List String := [
+  "wallet, account, result := s.fetchAccount(ctx, name, pubKey)",
+  "if result != core.ResultSucceeded { return nil, nil, result }",
+  "accountName := fmt.Sprintf(\"%s/%s\", wallet.Name(), account.Name())",
+  "result = s.checkAccess(ctx, credentials, accountName, action)",
+  "if result != core.ResultSucceeded { return nil, nil, result }",
+  "result = s.unlockAccount(ctx, wallet, account)",
+  "if result != core.ResultSucceeded { return nil, nil, result }",
+  "return wallet, account, core.ResultSucceeded"
+]
+
+/-- (fixed text, not translated from any source) what a Go loop `for i := range xs { if C₁(i) { r[i] = v₁; return r }; …; if Cₘ(i) { r[i] = vₘ; return r } }`
+    does, given for each guard IN SOURCE ORDER the first index at which its condition holds (`none`: at no index) and
+    the value it writes: it returns at the SMALLEST of these indices, through the guard that comes first in the source
+    among those whose condition holds there; `none`: the loop runs to its end.  (Dirk/Props/KernelsEq.lean,
+    `scanExit_eq_run`, proves this against a step-by-step execution of such a loop.) -/
+def scanExitGen : List (Option Nat × Nat) → Option (Nat × Nat)
+  | [] => none
+  | (none, _) :: rest => scanExitGen rest
+  | (some i, v) :: rest =>
+    match scanExitGen rest with
+    | some (j, w) => if j < i then some (j, w) else some (i, v)
+    | none => some (i, v)
+
+/-- (fixed text) `var key [w]byte; copy(key[:], pubKey)`: the first w bytes of pubKey, zero padded -/
+def keyOfWidthGen (w : Nat) (pubKey : Bytes) : Bytes := (pubKey ++ List.replicate w 0).take w
+
+/-- `RunRules` (services/ruler/golang/runner.go), the checks made before any lock is taken.  `none`: they pass (the locks are taken if `locking`, and `runRules` is called);
+    `some l`: the list returned early, as `rules.Result` enumerator values (`rulesResultValuesGen`).
+    n = `len(rulesData)`; locking = the condition of the locking `if` (`runRulesIsLockingGen action`).  Each `first…` parameter is the
+    least i < n at which the corresponding condition, read as a predicate of the index i alone, holds (`none`: at no i < n):
+    firstNil: `rulesData[i] == nil`; firstNilData: `rulesData[i].Data == nil`; firstEmptyKey: `len(rulesData[i].PubKey) == 0`;
+    firstDupKey: `pubKeyMap[key]` exists, i.e. the key of entry i (`runRulesKeyGen`) equals the key of an entry j < i — the map is
+    created empty before the loop and entry j's key is inserted at the end of iteration j, the only writes to it.
+    Where the Go cannot evaluate a condition (a guard before it returns first, or an earlier loop has returned) its value is
+    irrelevant: `scanExitGen` only looks at the smallest index, ties going to the guard that comes first in the source.
+    One `match scanExitGen […]` per Go loop, in source order, the guards of a loop in source order; model counterpart: `Dirk.firstDup / the refusals of Dirk.signAtts, Dirk.multisign before the rules`. -/
+def runRulesValidateGen (n : Nat) (firstNil firstNilData : Option Nat) (locking : Bool) (firstEmptyKey firstDupKey : Option Nat) : Option (List Nat) :=
+  if n = 0 then some [3]
+  else match scanExitGen [(firstNil, 3), (firstNilData, 3)] with
+  | some (i, v) => some ((List.replicate n 0).set i v)
+  | none =>
+    if locking then
+      (match scanExitGen [(firstEmptyKey, 3), (firstDupKey, 3)] with
+       | some (i, v) => some ((List.replicate n 0).set i v)
+       | none =>
+         none)
+    else
+      none
+
+/-- … the actions for which the checks on the keys are made and the locks are taken: the names compared with in the condition of the
+    locking `if` (`action == ruler.ActionSign || action == ruler.ActionSignBeaconProposal || action == ruler.ActionSignBeaconAttestation`), by VALUE (services/ruler/service.go: declared with a string literal, and — being variables — assigned to nowhere in the
+    repository's non-test files), in source order -/
+def runRulesLockingActionsGen : List String := ["Sign", "Sign beacon proposal", "Sign beacon attestation"]
+
+/-- … that condition itself -/
+def runRulesIsLockingGen (action : String) : Bool :=
+  action == "Sign" || action == "Sign beacon proposal" || action == "Sign beacon attestation"
+
+/-- … how the key of the duplicate check's map is built (locals printed as their roles), its width in bytes, and the same as a function -/
+def runRulesDupKeyExprGen : String := "var key [48]byte; copy(key[:], rulesData[i].PubKey)"
+def runRulesKeyWidthGen : Nat := 48
+def runRulesKeyGen (pubKey : Bytes) : Bytes := keyOfWidthGen 48 pubKey
+
+/-- the guards of `RunRules`, as written in the source, in order -/
+def runRulesValidateGuards : List String := [
+  "if len(rulesData) == 0 { return []rules.Result{rules.FAILED} }",
+  "results := make([]rules.Result, len(rulesData))",
+  "for i := range rulesData { results[i] = rules.UNKNOWN }",
+  "for i := range rulesData { if rulesData[i] == nil { results[i] = rules.FAILED; return results }; if rulesData[i].Data == nil { results[i] = rules.FAILED; return results } }",
+  "if action == ruler.ActionSign || action == ruler.ActionSignBeaconProposal || action == ruler.ActionSignBeaconAttestation {",
+  "pubKeyMap := make(map[[48]byte]bool)",
+  "for i := range rulesData { var key [48]byte; if len(rulesData[i].PubKey) == 0 { results[i] = rules.FAILED; return results }; copy(key[:], rulesData[i].PubKey); if _, exists := pubKeyMap[key]; exists { results[i] = rules.FAILED; return results }; pubKeyMap[key] = true }",
+  "}",
+  "return s.runRules(ctx, credentials, action, rulesData)"
+]
+
+/-- `RunRules` (services/ruler/golang/runner.go), the locker calls and the rules call of the locking actions, in source order, loops made explicit, locals printed as
+    their roles (`keyW(PubKey)` = `var key [W]byte; copy(key[:], rulesData[i].PubKey)`).  Nothing else in the function touches the locker,
+    there is no `go` statement, no return between the first and the last of them except the one shown, every loop is `for i := range rulesData`; model counterpart: `Dirk.lockWrap (Model/LockTrace.lean), the thread program of Model/Conc.lean`. -/
+def runRulesLockProtocolGen : List String := ["PreLock", "for-each-in-order: Lock(key48(PubKey)); defer Unlock(key48(PubKey))", "PostLock", "return runRules"]
+
+/-- … the width of the key handed to `Lock` -/
+def runRulesLockKeyWidthGen : Nat := 48
+
+/-- … the calls this makes for the concrete public keys `keys` (in request order) when the rules call makes the calls `inner`,
+    DERIVED from the list above: a `for i := range` loop visits the keys in order; a `defer` registered in such a loop runs when the
+    function returns — after the rules call — last registered first, hence `keys.reverse` -/
+def lockCallsTokGen {τ : Type} (pre post : τ) (lock unlock : Bytes → τ) (keys : List Bytes) (inner : List τ) : List τ :=
+  [pre] ++ keys.map (fun k => lock (keyOfWidthGen 48 k)) ++ [post] ++ inner ++ keys.reverse.map (fun k => unlock (keyOfWidthGen 48 k))
+
+/-- … the same with strings as tokens -/
+def lockTokGen (k : Bytes) : String := "lock " ++ toString k
+def unlockTokGen (k : Bytes) : String := "unlock " ++ toString k
+def lockCallsGen (keys : List Bytes) (inner : List String) : List String :=
+  lockCallsTokGen "pre" "post" lockTokGen unlockTokGen keys inner
+
+/-- the guards of `RunRules`, as written in the source, in order -/
+def runRulesLockProtocolGuards : List String := [
+  "if action == ruler.ActionSign || action == ruler.ActionSignBeaconProposal || action == ruler.ActionSignBeaconAttestation {",
+  "s.locker.PreLock()",
+  "for i := range rulesData { var key [48]byte; copy(key[:], rulesData[i].PubKey); s.locker.Lock(key); defer s.locker.Unlock(key) }",
+  "s.locker.PostLock()",
+  "}",
+  "return s.runRules(ctx, credentials, action, rulesData)"
+]
+
+/-- `runRules` (services/ruler/golang/runner.go), its first statement, the choice of the path: 1 = the batch path (`return s.runRulesForMultipleBeaconAttestations(ctx, credentials, rulesData)`),
+    0 = the per-entry path (the rest of the function).  n = `len(rulesData)`; isAttestation: `action == ruler.ActionSignBeaconAttestation`; model counterpart: `Dirk.rulesKeyed (single rule vs. Dirk.onAttestBatch)`. -/
+def runRulesPathGen (n : Nat) (isAttestation : Bool) : Nat :=
+  if decide (n > 1) && isAttestation then 1
+  else 0
+
+/-- … the value of `ruler.ActionSignBeaconAttestation` (services/ruler/service.go) -/
+def runRulesAttestationActionGen : String := "Sign beacon attestation"
+
+/-- the guards of `runRules`, as written in the source, in order -/
+def runRulesPathGuards : List String := [
+  "if len(rulesData) > 1 && action == ruler.ActionSignBeaconAttestation { return s.runRulesForMultipleBeaconAttestations(ctx, credentials, rulesData) }",
+  "(the per-entry path)"
 ]
 
 end Dirk.Gen
